@@ -252,8 +252,10 @@ def alphabet(thorough):
     trees = [((-1, 0), ("hinge", "slide")), ((-1,), ("ball",)), ((-1, 0), ("free", "hinge")), ((-1, -1), ("slidehinge", "ball"))]
     if thorough:
         trees += [((-1,), ("free",)), ((-1,), ("hinge2",)), ((-1, 0), ("ball", "slide")), ((-1, 0), ("hinge", "ball")), ((-1, 0, 1), ("hinge", "hinge", "slide"))]
+    # option index per tree: RK4 (four forward passes to differentiate) only on the smallest model of the quick tier
+    oidx = {0: 1, 1: 0, 2: 2, 3: 3}
     for ti, (par, js) in enumerate(trees):
-        op, desc = o(ti)
+        op, desc = o(oidx.get(ti, ti))
         it = G.tree_model("smooth[%s]" % ",".join(js), par, js, op, tendon=True, gravcomp=(ti % 2 == 0), actuators=1,
                           sensors=1, spatial=(ti == 0) and "plain")
         add(it, desc, ["rev"] + (["fwd"] if thorough else []), ns)
@@ -268,7 +270,7 @@ def alphabet(thorough):
         add(it, desc + ("iter50",), ["fwd"] + (["rev"] if ti == 0 else []), ns)
     scenes = [[("plane", "sphere")]] + ([[("plane", "capsule"), ("sphere", "sphere")]] if thorough else [])
     for ci, pairs in enumerate(scenes):
-        op, desc = o(ci * 3 + 1, iterations=50)
+        op, desc = o(ci * 3 + 2, iterations=50)
         it = G.contact_model("contact[%s]" % "+".join("-".join(p_) for p_ in pairs), op, pairs, condim=3)
         add(it, desc + ("iter50",), ["fwd"], ns)
     return items
